@@ -281,7 +281,7 @@ func c11Run(t *testing.T, cj []byte, res *vfResult) {
 func init() {
 	vfRegister(&vfProp{
 		ID: "C11", Level: "exploration", ReplayClass: "decision-exact", // transports started by the setup run free: a few percent of seeds diverge
-		Rule:        "case = one real PeerConnection (fresh, or holding a foreign remote offer, or after a completed exchange) on which 1-4 tasks each call CreateOffer/CreateAnswer 1-3 times; the seeded cooperative scheduler picks the next task at every lock/atomic site of peerconnection.go and sdp.go; oracle = one session id, pairwise distinct versions, and a call that started after another returned carries a larger version; non-trivial = >=2 successful creates and (>=1 preemption or a single-task sequential history), distinct = hash of (calls, schedule)",
+		Rule:        "case = one real PeerConnection (fresh, or holding a foreign remote offer, or after a completed exchange) on which 1-4 tasks each call CreateOffer/CreateAnswer 1-3 times (sequential histories also apply descriptions, incl. a provisional answer before the final one; one more task may stop transceivers meanwhile, which makes CreateOffer recompute); the seeded cooperative scheduler picks the next task at every lock/atomic site of peerconnection.go and sdp.go; oracle = one session id, pairwise distinct versions, and a call that started after another returned carries a larger version; non-trivial = >=2 successful creates and (>=1 preemption or a single-task sequential history), distinct = hash of (calls, schedule)",
 		Real:        []string{"PeerConnection.CreateOffer/CreateAnswer, generateMatchedSDP/generateUnmatchedSDP, updateSDPOrigin (instrumented)", "pion/sdp"},
 		Stub:        []string{"no network; the remote description, where needed, comes from the foreign SDP generator"},
 		Assumptions: []string{"'strictly greater than every earlier one' is read for overlapping calls as: distinct versions, and real-time order respected"},
